@@ -145,7 +145,10 @@ impl<'a> Gen<'a> {
             0 => {
                 let lit = match self.rng.below(5) {
                     0 => format!("0x{:x}", self.rng.below(4096)),
-                    1 => "'a'".to_string(),
+                    // mostly Latin-1 (the value of a character literal beyond U+00FF is outside the language
+                    // specification: such programs only feed the correspondence ops)
+                    1 if self.rng.chance(1, 16) => self.rng.pick(&["'\u{20ac}'", "'\u{1F600}'"]).to_string(),
+                    1 => self.rng.pick(&["'a'", "'a'", "','", "'\\'", "'''", "' '", "'\t'", "'\"'", "'/'", "'0'", "'\u{e9}'"]).to_string(),
                     2 => "'\\n'".to_string(),
                     _ => format!("{}", self.rng.below(100)),
                 };
@@ -344,6 +347,10 @@ impl<'a> Gen<'a> {
                 return;
             }
             let b = *self.rng.pick(BUILTIN_REF);
+            if self.p.procs[pi].vars.iter().any(|v| v.name == b) {
+                self.t(";", gap);
+                return;
+            }
             let vi = *self.rng.pick(&cands);
             self.id(b, Binding::BuiltinProc(b.to_string()), false, gap);
             self.t("(", "in-stmt");
@@ -353,6 +360,10 @@ impl<'a> Gen<'a> {
             self.t(";", "before-semic");
         } else {
             let (b, n) = *self.rng.pick(BUILTINS);
+            if self.p.procs[pi].vars.iter().any(|v| v.name == b) {
+                self.t(";", gap);
+                return;
+            }
             self.id(b, Binding::BuiltinProc(b.to_string()), false, gap);
             self.t("(", "in-stmt");
             for k in 0..n {
@@ -423,6 +434,40 @@ fn fresh_name(rng: &mut Rng, used: &mut Vec<String>, prefix: &str) -> String {
     }
 }
 
+/// A local name: usually fresh; sometimes the name of a predefined procedure (a local may hide it)
+/// or a case variant of another local (SPL is case sensitive).
+fn local_name(rng: &mut Rng, used: &mut Vec<String>) -> String {
+    match rng.below(12) {
+        0 => {
+            let n = rng.pick(&["time", "exit", "printi", "printc", "readi", "readc", "clearAll", "setPixel"]).to_string();
+            if !used.contains(&n) {
+                used.push(n.clone());
+                return n;
+            }
+        }
+        1 | 2 => {
+            let cands: Vec<String> = used
+                .iter()
+                .map(|u| {
+                    let mut c = u.chars();
+                    match c.next() {
+                        Some(f) if f.is_ascii_lowercase() => f.to_ascii_uppercase().to_string() + c.as_str(),
+                        _ => u.to_ascii_uppercase(),
+                    }
+                })
+                .filter(|v| !used.contains(v) && v.chars().any(|c| c.is_ascii_uppercase()))
+                .collect();
+            if !cands.is_empty() {
+                let n = rng.pick(&cands).clone();
+                used.push(n.clone());
+                return n;
+            }
+        }
+        _ => {}
+    }
+    fresh_name(rng, used, "")
+}
+
 /// Generate a well-typed program.
 pub fn gen(rng: &mut Rng, max_types: usize, max_procs: usize, max_depth: usize) -> Prog {
     let mut g = Gen { rng, p: Prog::default(), cur_decl: 0, max_depth };
@@ -449,7 +494,7 @@ pub fn gen(rng: &mut Rng, max_types: usize, max_procs: usize, max_depth: usize) 
                 let n = g.rng.pick(&proc_names).clone();
                 if local_names.contains(&n) { fresh_name(g.rng, &mut local_names, "") } else { local_names.push(n.clone()); n }
             } else {
-                fresh_name(g.rng, &mut local_names, "")
+                local_name(g.rng, &mut local_names)
             };
             let ty = if nt > 0 && g.rng.chance(1, 2) { Ty::Named(g.rng.below(nt)) } else { Ty::Int };
             let is_array = !g.dims_of(&ty).is_empty();
@@ -457,7 +502,7 @@ pub fn gen(rng: &mut Rng, max_types: usize, max_procs: usize, max_depth: usize) 
             vars.push(VarDef { name: vname, ty, is_ref, is_param: true, anon_dims: vec![] });
         }
         for _ in 0..g.rng.below(4) {
-            let vname = fresh_name(g.rng, &mut local_names, "");
+            let vname = local_name(g.rng, &mut local_names);
             let ty = if nt > 0 && g.rng.chance(1, 2) { Ty::Named(g.rng.below(nt)) } else { Ty::Int };
             let anon_dims: Vec<u32> = if g.rng.chance(1, 5) { vec![1 + g.rng.below(5) as u32] } else { vec![] };
             vars.push(VarDef { name: vname, ty, is_ref: false, is_param: false, anon_dims });
@@ -532,8 +577,9 @@ pub fn layout(rng: &mut Rng, toks: &[Tok], lo: &Layout) -> (String, Vec<usize>, 
                 s.push_str(if rng.chance(1, 2) { "\n" } else { " " });
             }
             for _ in 0..(1 + rng.below(2)) {
-                let body = match rng.below(4) {
+                let body = match rng.below(5) {
                     0 => format!(" c{}", n_comment),
+                    4 => format!(" f(a, b), c{} \u{1F600}", n_comment),
                     1 => format!("c{} é€", n_comment),
                     2 => format!("  c{}  ", n_comment),
                     _ => format!(" if x := c{} ;", n_comment),
@@ -560,6 +606,9 @@ pub fn layout(rng: &mut Rng, toks: &[Tok], lo: &Layout) -> (String, Vec<usize>, 
                     3 => "  ",
                     4 => "\t",
                     5 => "\r\n",
+                    // a lone CR is a line terminator for LSP positions but does not end a `//` comment:
+                    // only in comment-free layouts
+                    6 if lo.comment_pct == 0 && rng.chance(1, 2) => "\r",
                     6 | 7 => " ",
                     _ => if must { " " } else { "" },
                 }
